@@ -13,7 +13,7 @@ CHECKS = {
              "setExtrapolate's twelve assignments; table branch = -freeEnergy value / spline derivative of matching order) or a "
              "structural fact (branch guards and coefficient sets per phase, mirror symmetry of the two phases, call order in the "
              "manager). All are discharged by sympy normalisation, so the identities hold for every temperature, coefficient set and "
-             "phase, which no finite test can show.",
+             "phase, which no finite test can show. setExtrapolate refreshes the four range ends before it evaluates p / w / csq at them (CFG ordering).",
         note=COMMON_NOTE + " Spline accuracy against the true minimum is not decided.",
     ),
     "C19": dict(
@@ -62,7 +62,7 @@ CHECKS["C12"] = dict(
          "vanishes identically for a homogeneous background; f_eq' is the derivative of f_eq for both statistics; the Lorentz-boost building "
          "blocks have their defining forms; operator and source solved are those of one assembly with consistent reshapes; every factor "
          "of the Liouville and collision products occupies the axis pair that its construction (direction, basis) dictates in both modes; "
-         "the background is boosted on a deep copy. Also: the derivative and intertwiner matrices are those of the very basis functions used by changeBasis / evaluate (R12.7: index ranges and restricted Chebyshev basis, shared with C16).",
+         "the background is boosted on a deep copy. Also: the derivative and intertwiner matrices are those of the very basis functions used by changeBasis / evaluate (R12.7: index ranges and restricted Chebyshev basis, shared with C16). Methods called for their effect (changeBasis) really modify their receiver (R12.8).",
     note=COMMON_NOTE + " Convergence of finite differences to spectral derivatives and the conditioning of the dense solve are not decided.",
 )
 
@@ -86,7 +86,7 @@ CHECKS["C14"] = dict(
          "the same ordered pair; the solver's array is replaced only by the value of a successful load; the listed faults leave "
          "newFromDirectory through CollisionLoadError; the basis change is an inverse-transpose confined to the polynomial axes; the "
          "axis-label flow of the interpolation shows that the reshape only splits the point axis into (pz, pp) -- which fails for more "
-         "than one particle in the original code (fixed, F6); interpolation works on a deep copy in the Chebyshev basis and converts back. Also: the buffer that collects the per-pair blocks is allocated once (before the pair loops or under a first-file-only guard).",
+         "than one particle in the original code (fixed, F6); interpolation works on a deep copy in the Chebyshev basis and converts back. Also: the buffer that collects the per-pair blocks is allocated once (before the pair loops or under a first-file-only guard). loadCollisions returns normally only after installing the array it has just loaded; changeBasis, called for effect, modifies its receiver.",
     note=COMMON_NOTE + " Numerical fidelity of the interpolation is not decided.",
 )
 
@@ -99,7 +99,7 @@ CHECKS["C02"] = dict(
          "relations (common positive factor); c1, c2 and vMid equal their definitions in both classes, the template's with its own "
          "equation of state (itself checked for w = T dp/dT); T+ values only reach high-T-phase functions/bounds and T- values low-T ones "
          "through all producers and consumers. Two rules fail on today's tree and are recorded as known finding F11: the convergence "
-         "flag of the 2x2 solve is never read by findMatching, and its acceptance test is an absolute threshold on O(v^2) residuals. Also: the template model's closed forms are flux conservation with its own equation of state (T- from energy-flux continuity, T+ = Tn w+^(1/mu), one alpha+(v+,v-) relation, maxAl's residual is _eqWall at v- = cb; R02.7, shared with C15), and a root search entered after a sign-change test brackets between the tested points, so the exact matching is not silently replaced by the template's (R02.8).",
+         "flag of the 2x2 solve is never read by findMatching, and its acceptance test is an absolute threshold on O(v^2) residuals. Also: the template model's closed forms are flux conservation with its own equation of state (T- from energy-flux continuity, T+ = Tn w+^(1/mu), one alpha+(v+,v-) relation, maxAl's residual is _eqWall at v- = cb; R02.7, shared with C15), and a root search entered after a sign-change test brackets between the tested points, so the exact matching is not silently replaced by the template's (R02.8). The template fallback of findMatching is never decided on a stale convergence flag (every read of self.success follows a write of the same call) and no hydrodynamics class keeps mutable class-level state.",
     note=COMMON_NOTE + " That hybr/brentq reach the root, and which approximation the template fallback returns, are not decided.",
 )
 CHECKS["C03"] = dict(
@@ -112,7 +112,7 @@ CHECKS["C03"] = dict(
          "three sites and terminal; the front-crossing function is energy-flux continuity with the plasma at rest ahead; integration "
          "starts at mu(vw, v+) from (vw, T+); the efficiency factor integrates the same ODE from the same data with integrand "
          "xi^2 v^2 gamma^2 w and prefactor 4/(vw^3 w_n alpha_n), the rarefaction part with the low-T enthalpy and opposite sign; the "
-         "template ODE agrees term-wise. Also: side typing of the functions that enforce the Tn boundary condition (R03.7, shared with C02), sign-tested root searches bracket between the tested points (R03.8), and every branch that depends on the side of the Jouguet velocity uses the model's own vJ, so the shock wave of a hybrid is not dropped from kappa (R03.9).",
+         "template ODE agrees term-wise. Also: side typing of the functions that enforce the Tn boundary condition (R03.7, shared with C02), sign-tested root searches bracket between the tested points (R03.8), and every branch that depends on the side of the Jouguet velocity uses the model's own vJ, so the shock wave of a hybrid is not dropped from kappa (R03.9). No hydrodynamics class keeps mutable class-level state (a matching cached for one model is never served to another).",
     note=COMMON_NOTE + " Accuracy of solve_ivp / simpson and the momentum-flux condition at the front (a consequence, not coded) are not decided.",
 )
 
@@ -135,7 +135,7 @@ CHECKS["C06"] = dict(
          "substituting the template's closed-form vJ into its detonation branch gives zero discriminant and v- = cb; both classes switch to "
          "the detonation branch exactly at vw > vJ, as does the labelling in the wall solver; v- = min(...) rules at every site; the "
          "detonation root is bracketed on the weak side by the minimiser of the same residual; fastestDeflag / slowestDeton / vMin "
-         "bookkeeping (min of the two range-limited roots, flags per phase, window handed to the wall solver). Also: the sound speeds that classify a wall are those of their own phase, frozen at that phase's own range ends (R06.7, branch rules shared with C10), and every Jouguet-side decision of Hydrodynamics uses self.vJ (R06.8).",
+         "bookkeeping (min of the two range-limited roots, flags per phase, window handed to the wall solver). Also: the sound speeds that classify a wall are those of their own phase, frozen at that phase's own range ends (R06.7, branch rules shared with C10), and every Jouguet-side decision of Hydrodynamics uses self.vJ (R06.8). The two range-limited velocities of fastestDeflag live in distinct variables whose minimum is returned; no comparison of vJ with a plasma velocity (R06.8).",
     note=COMMON_NOTE + " Numerical inequalities between returned speeds and temperatures are not decided.",
 )
 
@@ -148,7 +148,7 @@ CHECKS["C04"] = dict(
          "components; s1/s2 pair with T30/T33; the boundary data keep their roles through all five call levels; every exit of the point "
          "solver is classified by the provenance of the returned temperature (root / failure sentinel / other) and the failure flag is "
          "reset before and lowered inside the grid loop; end-point arrays are oriented (behind, ..., in front). The early exit that "
-         "returns the minimiser of the residual as a success is known finding F10. Also: the gradient entering the T33 kinetic term is the z-derivative of the very profile whose values enter V and w (R04.8, shared with C09), and the Boltzmann solver boosts a deep copy so the reported background stays in the wall frame (R04.9, shared with C12).",
+         "returns the minimiser of the residual as a success is known finding F10. Also: the gradient entering the T33 kinetic term is the z-derivative of the very profile whose values enter V and w (R04.8, shared with C09), and the Boltzmann solver boosts a deep copy so the reported background stays in the wall frame (R04.9, shared with C12). Wherever the out-of-equilibrium T30/T33 are used they are the result of deltaToTmunu on every path, and the Jouguet velocity is never compared with a plasma velocity when the detonation root is selected (R04.10).",
     note=COMMON_NOTE + " Branch selection by |Tn - T+| < 1e-10, convergence of the bracketing loop and the far-field limits are not decided.",
 )
 CHECKS["C09"] = dict(
@@ -200,7 +200,7 @@ CHECKS["C15"] = dict(
          "ODE, front condition, efficiency-factor integrand, classification threshold and v- rule agree term-wise; the template's alpha_n, "
          "Psi_n and exponents are the Thermodynamics definitions at Tn; its closed forms are mutually consistent (getVp solves the "
          "alpha(v+, v-) relation coded at three other places, _findTm is energy-flux conservation for w ~ T^mu / T^nu, the closed-form vJ "
-         "is the Chapman-Jouguet point); the manager uses the template only to size the tracing range.",
+         "is the Chapman-Jouguet point); the manager uses the template only to size the tracing range. The LTE solvers' sentinel conditions and root functions are those decided for C05 (R15.8).",
     note=COMMON_NOTE + " Numerical agreement of the two solvers over the parameter domain -- the body of the property -- is not decided; "
                        "this is the thinnest kind of claim: necessary structural conditions shared with C02, C03, C06.",
 )
@@ -215,7 +215,7 @@ CHECKS["C20"] = dict(
          "limits and use their own class's integrands; the thermal sum is T^4/(2 pi^2)[sum n_B Re Jb + sum n_F Re Jf] with m^2/T^2 "
          "arguments, jCW has the standard form and fermions the opposite sign. The shipped tables are linted row by row: layout, "
          "uniform increasing abscissae on [-20, 1000], finiteness, zero imaginary part for x >= 0, cubic-prediction residuals "
-         "(resolution 2e-4 on the real part), value at 0 and large-x asymptote; ini file, file names and reader agree. Also: beyond the tabulated range the default tables are continued by a value, evaluated directly or refused, never by spline extrapolation, and the directly evaluated integral objects are constructed with adaptive interpolation off (R20.5).",
+         "(resolution 2e-4 on the real part), value at 0 and large-x asymptote; ini file, file names and reader agree. Also: beyond the tabulated range the default tables are continued by a value, evaluated directly or refused, never by spline extrapolation, and the directly evaluated integral objects are constructed with adaptive interpolation off (R20.5). Under ABS_ARGUMENT the integrals are evaluated at |m^2|/T^2 on every such path; the table interpolant is the not-a-knot cubic spline.",
     note=COMMON_NOTE + " Values returned by quad, table accuracy between rows and continuity in the masses are not decided; a table "
                        "corruption below 2e-4 in a smooth region is not seen.",
 )
